@@ -1387,7 +1387,7 @@ pub fn run(args: &[String]) -> i32 {
     for (i, v) in util::read_lines(&args[0]) {
         let kind = v["kind"].as_str().unwrap_or("case").to_string();
         let mut r = match kind.as_str() {
-            "hist" => match serde_json::from_value::<HistJ>(v.clone()).map_err(|e| e.to_string()).and_then(|h| build_history(&h)) {
+            "hist" => match serde_json::from_value::<HistJ>(v.clone()).map_err(|e| e.to_string()).and_then(|h| util::catch(|| build_history(&h)).unwrap_or_else(|m| Err(format!("panic while building the history: {m}")))) {
                 Ok(hd) => {
                     let r = json!({"verdict":"ok","kind":"hist","h":hd.spec.h,
                         "commits": hd.main_entries.iter().map(|e| util::hex32(&e.expected.commit_hash)).collect::<Vec<_>>(),
@@ -1395,11 +1395,14 @@ pub fn run(args: &[String]) -> i32 {
                     hists.insert(hd.spec.h, hd);
                     r
                 }
+                Err(e) if e.starts_with("panic while") => json!({"verdict":"violation","kind":"history_build_panicked","detail":e}),
                 Err(e) => json!({"verdict":"tool_error","kind":"hist","detail":e}),
             },
             "long" => match serde_json::from_value::<LongJ>(v.clone()) {
                 Ok(spec) => {
-                    let (r, tr) = run_long(&spec);
+                    let (r, tr) = util::catch(|| run_long(&spec)).unwrap_or_else(|m| {
+                        (json!({"verdict":"violation","kind":"long_run_panicked","detail":format!("panic in a long random session: {m}")}), Vec::new())
+                    });
                     if let Some(t) = trace_out.as_mut() {
                         for e in &tr {
                             t.line(e);
@@ -1418,8 +1421,13 @@ pub fn run(args: &[String]) -> i32 {
                         if prepared.first().map(|p| &p.key.0) != Some(&case.scn) {
                             prepared.clear();
                             for variant in [false, true] {
-                                match prepare(hd, &case.scn, variant, &mut rng) {
-                                    Ok(p) => match check_prepared(&p, hd, &case.scn) {
+                                // a panic inside the code under test (e.g. a debug assertion in replay) is data, not tool trouble
+                                let prep = util::catch(|| prepare(hd, &case.scn, variant, &mut rng))
+                                    .unwrap_or_else(|m| Err(format!("panic while preparing the scenario (appends / checkpoints / fork / U0 replays): {m}")));
+                                match prep {
+                                    Ok(p) => match util::catch(|| check_prepared(&p, hd, &case.scn))
+                                        .unwrap_or_else(|m| Err(("replay_at_panicked".to_string(), format!("replay_worldline_state_at panicked: {m}"))))
+                                    {
                                         Ok(()) => prepared.push(p),
                                         Err((k, d)) => {
                                             res = Some(json!({"verdict":"violation","kind":k,"detail":format!("[{}] {d}", if variant {"outs"} else {"real"})}));
@@ -1443,7 +1451,13 @@ pub fn run(args: &[String]) -> i32 {
                                 let mut drift = Vec::new();
                                 let mut bad: Option<Value> = None;
                                 for p in &prepared {
-                                    let o = run_case(&inv, hd, p, &case, p.key.1);
+                                    let o = match util::catch(|| run_case(&inv, hd, p, &case, p.key.1)) {
+                                        Ok(o) => o,
+                                        Err(m) => {
+                                            bad = Some(json!({"verdict":"violation","kind":"cursor_action_panicked","detail":format!("panic outside the guarded cursor calls: {m}")}));
+                                            break;
+                                        }
+                                    };
                                     drift.extend(o.drift);
                                     if o.verdict != "ok" {
                                         bad = Some(json!({"verdict":o.verdict,"kind":o.kind,"detail":o.detail}));
